@@ -163,7 +163,7 @@ PROPS = {
         "assumptions": ["the store is unchanged between the reads of one case"],
     },
     "C01": {
-        "lean_props": ["ZarrsModel.Props.C01", "ZarrsModel.Props.C01Chain"],
+        "lean_props": ["ZarrsModel.Props.C01", "ZarrsModel.Props.C01Chain", "ZarrsModel.Props.C01Vlen"],
         "harness": "c01",
         "rule": "random configuration: 12 data types (fixed and variable length; NaN/-0.0/non-empty-string fills), rank 0..3, regular (ragged edge) and rectangular grids, 4 key encodings, "
                 "root/nested paths, chains over every registered lossless codec (transpose, squeeze, bytes both endians, packbits, pcodec, vlen, vlen_v2, vlen-utf8/bytes, sharding nested to depth 2 "
@@ -222,7 +222,7 @@ PROPS = {
         "assumptions": ["fixed-size data types (variable-size outputs are assembled by merge_chunks_vlen, covered by C01/C06 value comparison)"],
     },
     "C16": {
-        "lean_props": ["ZarrsModel.Props.C16"],
+        "lean_props": ["ZarrsModel.Props.C16", "ZarrsModel.Props.C16Shard"],
         "harness": "c16",
         "rule": "(a) C01-style histories at concurrency targets {1,2,3,8,16} x chunk_concurrent_minimum {1,4}, every outcome compared with the sequential model; (b) 2-3 client threads issuing "
                 "store/erase/retrieve calls on chunk-disjoint bands of one array through a second handle whose store is wrapped by a turn-taking gate that serialises the store-level operations "
@@ -266,9 +266,9 @@ PROPS = {
         "timeout": 3000,
     },
     "C02": {
-        "lean_props": ["ZarrsModel.Props.C02", "ZarrsModel.Props.C02Shard"],
+        "lean_props": ["ZarrsModel.Props.C02", "ZarrsModel.Props.C02Shard", "ZarrsModel.Props.C01Vlen"],
         "harness": "c02",
-        "harness_also": ["c02s"],
+        "harness_also": ["c02s", "c02v"],
         "rule": "random configurations (half sharded, nested sharding, both index locations, checksums/compressors before and after sharding, transposes, squeeze, vlen types, non-cubic chunks and size-1 "
                 "dims) with chunks written fully / partly fill / left absent; for up to 3 chunks EVERY sub-box (exhaustive when <=150 boxes, else 60 sampled) is read through retrieve_chunk_subset or the "
                 "chunk partial decoder, plus lists of 2-4 regions (sometimes with an empty region) and chunk-crossing retrieve_array_subset; each outcome is compared with the model's full-decode-then-slice "
@@ -296,7 +296,7 @@ PROPS = {
     },
     "C05": {
         
-        "lean_props": ["ZarrsModel.Props.C05"],
+        "lean_props": ["ZarrsModel.Props.C05", "ZarrsModel.Props.C05Chain"],
         "harness": "c05",
         "rule": "random configurations (two thirds sharded: both index locations, plain / big-endian / crc32c index, nested shards, compressed or checksummed inner and outer chains; one third unsharded chains) "
                 "with experimental_partial_encoding ON; starting from absent or existing whole-chunk values, histories of 1-8 (thorough 1-12) chunk-subset and array-subset writes (growing, to-fill, small "
